@@ -425,4 +425,105 @@ theorem unique_process (p : Pool) (pkt : Packet) (ts : Nat) (h : UniqueKeys p.ac
             exact unique_replace k _ _ h
     · rw [process_notfrag p k fo mf pl ts hf]; exact h
 
+/-! ### a stream only depends on its own entry -/
+
+theorem step_pool (s : Session) (pkt : Packet) (ts : Nat) :
+    (s.step (.deliver pkt ts)).1.pool = (s.pool.process pkt ts).1 := by
+  simp only [Session.step]
+  split <;> rename_i h <;> simp [h]
+
+theorem unique_step (s : Session) (op : Defrag.Op) (h : UniqueKeys s.pool.active) :
+    UniqueKeys (s.step op).1.pool.active := by
+  cases op with
+  | deliver pkt ts => rw [step_pool]; exact unique_process s.pool pkt ts h
+  | ret =>
+    simp only [Session.step]
+    split
+    · exact h
+    · exact h
+  | retain m => exact unique_filter _ _ h
+
+theorem lookup_append_self (k : Key) (v : Buf × Nat) :
+    ∀ m : List (Key × Buf × Nat), lookup k m = none → lookup k (m ++ [(k, v)]) = some v
+  | [], _ => by simp [lookup]
+  | (k1, v1) :: m, h => by
+    simp only [lookup] at h
+    by_cases h1 : k1 = k
+    · simp [h1] at h
+    · simp only [h1, if_false] at h
+      simp only [List.cons_append, lookup, h1, if_false]
+      exact lookup_append_self k v m h
+
+theorem lookup_replace_self (k : Key) (v : Buf × Nat) :
+    ∀ m : List (Key × Buf × Nat), lookup k m ≠ none → lookup k (replace k v m) = some v
+  | [], h => by simp [lookup] at h
+  | (k1, v1) :: m, h => by
+    simp only [replace]
+    by_cases h1 : k1 = k
+    · simp [h1, lookup]
+    · simp only [h1, if_false, lookup] at h ⊢
+      exact lookup_replace_self k v m h
+
+theorem lookup_filter (g : Key × Buf × Nat → Bool) (k : Key) :
+    ∀ m : List (Key × Buf × Nat), UniqueKeys m →
+    lookup k (m.filter g) = match lookup k m with
+      | some v => if g (k, v) then some v else none
+      | none => none
+  | [], _ => rfl
+  | (k1, v1) :: m, h => by
+    simp only [List.filter_cons, lookup]
+    by_cases h1 : k1 = k
+    · subst h1
+      simp only [if_true]
+      split
+      · simp [lookup]
+      · rename_i hg
+        rw [lookup_filter_none g k1 m h.1]
+    · simp only [h1, if_false]
+      split
+      · simp only [lookup, h1, if_false]; exact lookup_filter g k m h.2
+      · exact lookup_filter g k m h.2
+
+/-- a delivery for stream `k`: the result and the new entry of `k` depend on the entry of `k` only -/
+theorem step_same_key {s s' : Session} (k : Key) (fo : Nat) (mf : Bool) (pl : Bytes) (ts : Nat)
+    (h : lookup k s.pool.active = lookup k s'.pool.active)
+    (hu : UniqueKeys s.pool.active) (hu' : UniqueKeys s'.pool.active) :
+    (s.step (.deliver (.frag k fo mf pl) ts)).2 = (s'.step (.deliver (.frag k fo mf pl) ts)).2 ∧
+    lookup k (s.step (.deliver (.frag k fo mf pl) ts)).1.pool.active =
+      lookup k (s'.step (.deliver (.frag k fo mf pl) ts)).1.pool.active := by
+  by_cases hf : mf = true ∨ fo ≠ 0
+  · cases hl : lookup k s.pool.active with
+    | none =>
+      have hl' : lookup k s'.pool.active = none := by rw [← h, hl]
+      cases ha : (Buf.new k.payloadIpNumber).add fo mf pl with
+      | ok b' =>
+        simp only [Session.step, process_vacant_ok _ k fo mf pl ts hf hl ha,
+          process_vacant_ok _ k fo mf pl ts hf hl' ha]
+        exact ⟨trivial, by rw [lookup_append_self k _ _ hl, lookup_append_self k _ _ hl']⟩
+      | error e' =>
+        simp only [Session.step, process_vacant_err _ k fo mf pl ts hf hl ha,
+          process_vacant_err _ k fo mf pl ts hf hl' ha]
+        exact ⟨trivial, by rw [hl, hl']⟩
+    | some v =>
+      obtain ⟨b, t⟩ := v
+      have hl' : lookup k s'.pool.active = some (b, t) := by rw [← h, hl]
+      cases ha : b.add fo mf pl with
+      | error e' =>
+        simp only [Session.step, process_occupied_err _ k fo mf pl ts hf hl ha,
+          process_occupied_err _ k fo mf pl ts hf hl' ha]
+        exact ⟨trivial, by rw [hl, hl']⟩
+      | ok b' =>
+        cases hc : b'.isComplete with
+        | true =>
+          simp only [Session.step, process_occupied_complete _ k fo mf pl ts hf hl ha hc,
+            process_occupied_complete _ k fo mf pl ts hf hl' ha hc]
+          exact ⟨trivial, by rw [lookup_erase_self k _ hu, lookup_erase_self k _ hu']⟩
+        | false =>
+          simp only [Session.step, process_occupied_more _ k fo mf pl ts hf hl ha hc,
+            process_occupied_more _ k fo mf pl ts hf hl' ha hc]
+          exact ⟨trivial, by
+            rw [lookup_replace_self k _ _ (by simp [hl]), lookup_replace_self k _ _ (by simp [hl'])]⟩
+  · simp only [Session.step, process_notfrag _ k fo mf pl ts hf]
+    exact ⟨trivial, h⟩
+
 end EpModel.Lemmas.Defrag
